@@ -758,6 +758,26 @@ fn oracle_combo<C: RangeCombo>(rng: &mut Rng, w: u32, s: u32, bps: &[(u32, Vec<u
                 if got != sealed {
                     caps.fail(rep, "C07", &tag, format!("{} | reverse-sink => the reversed sink holds {} but a Vec sink {}", plain, show_list(got), show_list(sealed.clone())));
                 } else {
+                    // a reversed decoder that has decoded everything, or was sought to the final snapshot (taken
+                    // with nothing held back), is possibly exhausted
+                    rep.eval("C07");
+                    let fin = guarded(|| {
+                        // (over exactly the words that were written: the spare room below them is not data)
+                        let written: Vec<C::W> = buf[endpos..].to_vec();
+                        let mut d = RangeDecoder::<C::W, C::S, _>::with_backend(Reverse(Cursor::new_at_write_end(written))).map_err(|_| "decoder refused".to_string())?;
+                        decode_expect::<C, _>(&mut d, &msg)?;
+                        let a = d.maybe_exhausted();
+                        let held_at_end = snaps.last().map(|x| x.2).unwrap_or(false);
+                        let (pos, st) = *rsnaps.last().unwrap();
+                        let b = if held_at_end || pos < endpos { true } else { d.seek((pos - endpos, st)).map_err(|_| "seek to the final snapshot rejected".to_string())?; d.maybe_exhausted() };
+                        Ok::<(bool, bool), String>((a, b))
+                    });
+                    match fin {
+                        Ok(Ok((true, true))) => {}
+                        Ok(Ok((a, b))) => caps.fail(rep, "C07", &tag, format!("{} | reverse-sink | reversed decoder: maybe_exhausted() after the last symbol = {}, after seeking to the final position = {}", desc_with_snaps(&head, &msg), a, b)),
+                        Ok(Err(t)) => caps.fail(rep, "C07", &tag, format!("{} | reverse-sink | reversed decoder => {}", desc_with_snaps(&head, &msg), t)),
+                        Err(class) => caps.fail(rep, "C07", &tag, format!("{} | reverse-sink | reversed decoder => {}", desc_with_snaps(&head, &msg), class)),
+                    }
                     for _ in 0..(1 + rng.next() % 5) {
                         let i = rng.below(rsnaps.len() as u128) as usize;
                         let cnt = rng.below((msg.len() - i) as u128 + 1) as usize;
